@@ -233,8 +233,10 @@ def lake_build(targets):
 def source_scan(pid):
     """grep the hand-written Lean sources for constructs the trusted base excludes."""
     hits = []
-    for sub in ("Model", "Proofs", "Props"):
-        for f in sorted((LEAN_DIR / sub).rglob("*.lean")):
+    # only the property's own transitive project-local imports (other builders' files are not its business)
+    files = [LEAN_DIR / (m.replace(".", "/") + ".lean") for m in local_import_closure(f"Props.{pid}")]
+    if True:
+        for f in sorted(files):
             in_block = 0
             for n, line in enumerate(f.read_text().splitlines(), 1):
                 code = line
@@ -401,10 +403,25 @@ def case_key(case):
 
 
 def load_known():
+    """committed known findings: known_findings.json (merged file) plus the per-property fragments
+    known_findings.d/*.json it is generated from.  Read-only: nothing is ever added at run time."""
+    out = {"findings": [], "fixed": []}
     f = VERIF / "known_findings.json"
     if f.exists():
-        return json.loads(f.read_text())
-    return {"findings": [], "fixed": []}
+        out = json.loads(f.read_text())
+    seen = {x.get("id") for x in out.get("findings", [])}
+    d = VERIF / "known_findings.d"
+    if d.is_dir():
+        for frag in sorted(d.glob("*.json")):
+            try:
+                fr = json.loads(frag.read_text())
+            except Exception:
+                continue
+            for x in fr.get("findings", []):
+                if x.get("id") not in seen:
+                    out.setdefault("findings", []).append(x)
+                    seen.add(x.get("id"))
+    return out
 
 
 def write_replay(pid, payload):
